@@ -44,9 +44,57 @@ def canary_unreadable(traces):
             return c, 'a listed message cannot be fetched after the restart'
 
 
+DSD_CFG = """SPECIFICATION TSpec
+CONSTANTS
+  NIds = 8
+  MaxOps = 99
+  KF_AckEarly = FALSE
+  KF_InPlace = FALSE
+INVARIANT Watch
+POSTCONDITION Post
+CHECK_DEADLOCK FALSE
+"""
+
+
+def model_validation(extra_cov):
+    """the same histories, validated effect by effect as behaviours of the design model DiskStore (spec/Trace_DiskStoreD.tla)"""
+    from .. import dtrace
+    from ..common import MachineryError
+
+    def post(oc, traces, summaries):
+        trs = [{'id': tr['id'], 'ev': tr['ev']} for tr in traces if tr['ev'] and tr['ev'][-1]['t'] == 'recover']
+        if not trs:
+            return
+        can = None
+        for tr in trs:           # binding canary: the rename of a meta file taken out of a write
+            ks = [i for i, e in enumerate(tr['ev']) if e['t'] == 'fx' and e['kind'] == 'rename' and e['f'] == 'meta']
+            if ks:
+                can = copy.deepcopy(tr)
+                can['id'] = max(t['id'] for t in trs) + 1
+                del can['ev'][ks[0]]
+                break
+        r = dtrace.validate('Trace_DiskStoreD', {'all': (DSD_CFG, trs + ([can] if can else []))}, 'dsd', per_shard=20)
+        ver = r['verdicts']
+        if can:
+            if ver.pop(can['id'])[0] == 'OK':
+                raise MachineryError('binding canary accepted by Trace_DiskStoreD: a write without the rename of its meta file')
+        cls = {tr['id']: tr['cls'] for tr in traces}
+        drift, samples = {}, []
+        for tid, (v, d) in sorted(ver.items()):
+            if v != 'OK':
+                drift[cls[tid]] = drift.get(cls[tid], 0) + 1
+                if len(samples) < 3:
+                    samples.append({'trace_id': tid, 'cls': cls[tid], 'verdict': v, 'detail': d})
+        extra_cov['design_model_validation'] = {
+            'module': 'Trace_DiskStoreD (EXTENDS DiskStore)', 'traces': len(trs), 'accepted': sum(1 for v in ver.values() if v[0] == 'OK'),
+            'drift': drift, 'tlc_states': r['states'], 'wall_s': r['wall_s'], 'canary_rejected': bool(can), 'drift_samples': samples}
+    return post
+
+
 def run(tier):
     wd = workdir('C04')
     q = tier == 'quick'
+    extra_cov = {}
     mc = [{'name': 'DiskStore: every history x crash point x restart', 'module': 'DiskStore',
            'cfg': flow.write_cfg(wd, 'ds.cfg', DS_CFG % (4 if q else 6, 'FALSE', 'FALSE'))},
           {'name': 'deviation KF_AckEarly (id returned before the meta file exists): TLC must find the loss', 'module': 'DiskStore',
@@ -66,7 +114,7 @@ def run(tier):
                      'the kill is a BaseException raised before the effect; finally-blocks that only close descriptors run, '
                      'as the kernel would'],
         trusted=['TLC 1.8', 'CommunityModules Json/IOUtils', 'harness/drivers/c04.py (effect interposition on module attributes)'],
-        wd=wd)
+        wd=wd, extra_cov=extra_cov, post=model_validation(extra_cov))
 
 
 def replay(path):
